@@ -29,6 +29,10 @@ Clauses(c) ==
        (IF StEq(c.post, r.st) THEN {} ELSE {"C14-state"})
        \cup (IF (c.exc = r.exc) \/ (r.exc # "" /\ r.exc # "TraitError" /\ c.exc # "") THEN {} ELSE {"C14-outcome"})
        \cup (IF c.pvread = PvRead(c.post) THEN {} ELSE {"C14-deferred-attribute-read"})
+       \* a change of the prototype's value notifies the handlers of the deferred attribute while it is linked, and not
+       \* once it holds a value of its own - on originals and on copies alike
+       \cup (IF c.op = "child_value" /\ c.exc = "" /\ c.pvn # (IF c.pre.pvset = 0 /\ c.pre.child.value # c.v THEN 1 ELSE 0)
+             THEN {"C14-deferred-attribute-notification"} ELSE {})
        \cup (IF c.obs = r.obs THEN {} ELSE {"C14-declared-observer"})
        \cup (IF c.dyn = r.dyn THEN {} ELSE {"C14-items-handler"})
        \cup (IF c.pobs = r.pobs THEN {} ELSE {"C14-declared-post-init-observer"})
